@@ -332,7 +332,7 @@ def check_fields(ctx, P):
                 kind = s.aop if s.kind in ("atomic", "sync") else "assign"
                 if fn.name not in table or kind not in table[fn.name]:
                     bad = bad or ("`%s` in %s (%s)" % (s.node.text, fn.name, kind), s.node, "%s writer %s %s" % (field, fn.name, kind))
-        ctx.expect_count("writers of " + field, n, 2)
+        ctx.expect_count("writers of " + field, n, 1)
         if bad:
             o.fail("unexpected writer " + bad[0], site=bad[1], construct=bad[2])
         else:
